@@ -82,7 +82,8 @@ fn main() {
             let hexs = arg_after(&args, "--hexfile").and_then(|p| std::fs::read_to_string(p).ok()).expect("--hexfile");
             let b = hex::decode(hexs.trim()).expect("hex");
             let d = gen_lisp::Dialect::parse(&arg_after(&args, "--dialect").unwrap_or_else(|| "cl23".into())).expect("dialect");
-            let okd = gen_lisp::Dialect::parse(&arg_after(&args, "--ok-dialect").unwrap_or_else(|| "cl21".into())).expect("ok dialect");
+            let no_ok = arg_after(&args, "--ok-dialect").map(|s| s == "none").unwrap_or(false);
+            let okd = if no_ok { gen_lisp::Dialect::Cl21 } else { gen_lisp::Dialect::parse(&arg_after(&args, "--ok-dialect").unwrap_or_else(|| "cl21".into())).expect("ok dialect") };
             let is_c10 = args.get(2).map(|x| x == "C10").unwrap_or(false);
             let start_prog = if is_c10 { props::c10::decode_bad(&b, tier).expect("no defect") } else { props::c01::decode_case(&b, tier, None).prog };
             let exe = std::env::current_exe().unwrap();
@@ -103,7 +104,7 @@ fn main() {
                 (st.code(), st.code().is_none(), out)
             };
             let mut still = |p: &gen_lisp::Program| -> bool {
-                if !is_c10 {
+                if !is_c10 && !no_ok {
                     let ok21 = run(&gen_lisp::render_program(p, Some(okd)), 40);
                     if !ok21.2.contains("CODE:") {
                         return false;
@@ -122,6 +123,27 @@ fn main() {
             let out = PathBuf::from(args.get(2).expect("out"));
             let data = PathBuf::from(args.get(3).expect("data"));
             std::process::exit(props::c19::helper_gentle(&out, &data, args.iter().any(|a| a == "--drop-privileges")));
+        }
+        "helper-unused" => {
+            // stdin: a source text; stdout: the names the unused-argument check reports, one per line
+            worker::limit_memory();
+            let mut src = String::new();
+            use std::io::Read;
+            std::io::stdin().read_to_string(&mut src).ok();
+            let h = std::thread::Builder::new().stack_size(512 << 20).spawn(move || match props::c17::unused_report(&src) {
+                Ok(names) => {
+                    println!("OK");
+                    for n in names {
+                        println!("{n}");
+                    }
+                    0
+                }
+                Err(e) => {
+                    println!("ERR {e}");
+                    1
+                }
+            });
+            std::process::exit(h.unwrap().join().unwrap_or(3));
         }
         "helper-compile-text" => {
             std::process::exit(props::c05::helper_compile_text(args.get(2).map(|s| s.as_str()).unwrap_or("cl23")));
@@ -181,6 +203,18 @@ fn main() {
             std::process::exit(worker::worker_main(prop, wa));
         }
         "one" | "replay" => {
+            // file arguments may be relative to the caller's directory: resolve before leaving it
+            let args: Vec<String> = args
+                .iter()
+                .enumerate()
+                .map(|(i, a)| {
+                    if i >= 2 && !a.starts_with("--") && std::path::Path::new(a).is_file() {
+                        std::fs::canonicalize(a).map(|p| p.to_string_lossy().to_string()).unwrap_or_else(|_| a.clone())
+                    } else {
+                        a.clone()
+                    }
+                })
+                .collect();
             worker::limit_memory();
             // run a single case in this process (big stack), print the verdict
             let is_replay = args[1] == "replay";
